@@ -17,7 +17,7 @@ from .c03 import _fresh_policy_answer
 
 ID = "C12"
 LEVEL = "exploration"
-QUICK_RUNS = 800
+QUICK_RUNS = 3200
 RULE = ("Each run: Clusters (n_clusters 2..4, KMeans / MiniBatchKMeans) over a compatible policy, or TreeBandit (drawn "
         "max_depth / min_samples_leaf / max_leaf_nodes) over EpsilonGreedy / UCB1 / ThompsonSampling; history with fit, "
         "partial_fit, arm changes and restarts; queries under seeded schedules and random partitions (deterministic "
